@@ -62,20 +62,27 @@ class WireObserver:
         self.history = {"c": [], "s": []}  # (time, [PacketView])
         self.undecryptable = collections.Counter()
         self.initial_dcids = set()
+        self._initial_cache = {}
+        self.keylogs = [self.keylog] if self.keylog is not None else []
+        self._pos = {}
         self.suite = None
 
     # ---------------------------------------------------------------- keys
+    def add_keylog(self, f):
+        if f is not None and f not in self.keylogs:
+            self.keylogs.append(f)
+
     def refresh(self):
-        if self.keylog is None:
-            return
-        text = self.keylog.getvalue()
-        if len(text) == self.keylog_pos:
-            return
-        for line in text[self.keylog_pos :].splitlines():
-            parts = line.split()
-            if len(parts) == 3 and parts[0] not in self.secrets:
-                self.secrets[parts[0]] = bytes.fromhex(parts[2])
-        self.keylog_pos = len(text)
+        for f in self.keylogs:
+            text = f.getvalue()
+            pos = self._pos.get(id(f), 0)
+            if len(text) == pos:
+                continue
+            for line in text[pos:].splitlines():
+                parts = line.split()
+                if len(parts) == 3 and parts[0] not in self.secrets:
+                    self.secrets[parts[0]] = bytes.fromhex(parts[2])
+            self._pos[id(f)] = len(text)
 
     def suites_for(self, secret):
         if len(secret) == 48:
@@ -85,17 +92,25 @@ class WireObserver:
         return [R.AES128, R.CHACHA]
 
     def add_initial(self, dcid, version):
-        if (dcid, version) in self.initial_dcids:
-            return
-        self.initial_dcids.add((dcid, version))
-        ck, sk = R.initial_keys(version, dcid)
-        self.rings["c"].initial.append(ck)
-        self.rings["s"].initial.append(sk)
+        self.initial_dcids.add(dcid)
+
+    def initial_candidates(self, x, version):
+        out = []
+        for dcid in self.initial_dcids:
+            k = (dcid, version)
+            if k not in self._initial_cache:
+                try:
+                    self._initial_cache[k] = R.initial_keys(version, dcid)
+                except Exception:
+                    self._initial_cache[k] = None
+            pair = self._initial_cache[k]
+            if pair is not None:
+                out.append(pair[0] if x == "c" else pair[1])
+        return out
 
     def candidates(self, x, ptype, version):
-        ring = self.rings[x]
         if ptype == R.PT_INITIAL:
-            return [k for k in ring.initial if k.version == version]
+            return self.initial_candidates(x, version)
         label = LABELS.get((x, ptype))
         if label is None:
             return []
